@@ -89,6 +89,7 @@ static inline size_t mpz_sizeinbase(mpz_srcptr a, int base)
 {
   unsigned long r = base == 2 ? UF(bits)(a->v) : UF(digits)(a->v, base);
   __CPROVER_assume(r >= 1);
+  __CPROVER_assume(a->v == 0 ==> r == 1);            /* manual: the result is 1 if op is zero */
   if (base != 2) __CPROVER_assume(r <= UF(bits)(a->v)); /* base >= 2: no more digits than bits */
   return r;
 }
@@ -148,6 +149,8 @@ static inline void mpz_fdiv_q(mpz_ptr r, mpz_srcptr a, mpz_srcptr b)
 static inline void mpz_tdiv_q(mpz_ptr r, mpz_srcptr a, mpz_srcptr b)
 { __CPROVER_assert(b->v != 0, "mpz_tdiv_q: divisor is not zero"); r->v = UF(tdiv_q)(a->v, b->v); }
 static inline void mpz_tdiv_r_2exp(mpz_ptr r, mpz_srcptr a, unsigned long n) { r->v = UF(tdiv_r_2exp)(a->v, n); }
+long UF(ui_pow_ui)(unsigned long, unsigned long);
+static inline void mpz_ui_pow_ui(mpz_ptr r, unsigned long b, unsigned long e) { long x = UF(ui_pow_ui)(b, e); __CPROVER_assume(x >= 0); r->v = x; }
 static inline void mpz_pow_ui(mpz_ptr r, mpz_srcptr a, unsigned long e) { r->v = UF(pow_ui)(a->v, e); }
 static inline void mpz_sqrt(mpz_ptr r, mpz_srcptr a) { r->v = UF(sqrt)(a->v); }
 static inline void mpz_swap(mpz_ptr a, mpz_ptr b) { long t = a->v; a->v = b->v; b->v = t; }
